@@ -644,7 +644,10 @@ def _engine_extra(pid):
     return f
 extra_C03 = _engine_extra('C03')
 extra_C05 = _engine_extra('C05')
-extra_C10 = _engine_extra('C10')
+def extra_C10(rng, tier, st, cov):
+    # the serial library with counting engines, and the MPI drivers under real MPI (stored generator = serial one) with engines that are
+    # instantiations of the standard templates themselves
+    return _engine_extra('C10')(rng, tier, st, cov) + extra_C04(rng, tier, st, cov, pid='C10')
 
 # ---- group oracles on run observations (exact) -------------------------------------------------------
 def texts_of(out):
@@ -1238,9 +1241,9 @@ def oracle_C13(results, metas, st):
 
 
 # ---- C04 under real MPI (OpenMPI, mpirun) --------------------------------------------------------------------
-def extra_C04(rng, tier, st, cov):
+def extra_C04(rng, tier, st, cov, pid='C04'):
     import tie
-    out = []; stats = {'runs': 0, 'checks_passed': 0, 'world_sizes': []}
+    out = []; stats = {'runs': 0, 'checks_passed': 0, 'world_sizes': [], 'engines': 'mt19937 minstd_rand ranlux24 knuth_b + linear_congruential_engine instantiations (c != 0; m = 2^31, 2^24-3, 2^32-5, 2^64)', 'types': 'float double long double'}
     try:
         exe = tie.mpireal_build()
     except tie.Stage as e:
@@ -1258,7 +1261,7 @@ def extra_C04(rng, tier, st, cov):
             out.append(viol('real MPI run with %d processes did not finish within 300 s (a rank hangs in a collective)' % P, [], {'mpirun_np': P, 'seed': seed})); continue
         summary = [l for l in p.stdout.split('\n') if l.startswith('SUMMARY')]
         for l in p.stdout.split('\n'):
-            if l.startswith('FAIL C04'):
+            if l.startswith('FAIL ' + pid):
                 out.append(viol('real MPI, %d processes: %s' % (P, l[9:]), [], {'mpirun_np': P, 'seed': seed}))
         if not summary:
             out.append(viol('real MPI run with %d processes ended abnormally (exit %d): %s' % (P, p.returncode, (p.stderr or p.stdout)[-300:]), [], {'mpirun_np': P, 'seed': seed}))
